@@ -548,3 +548,90 @@ def translate_eer(repo):
             "Section Gen.\nVariable succ pred : Q -> Q.\nVariable fuel : nat.\n"
             f"Definition gen_eer (s : scores) : res (Q * Q) :=\n  {body}.\nEnd Gen.\n"
             "Definition gen_find_root_loop_is_the_modelled_one : bool := true.\n")
+
+
+# ------------------------------------------------------------------ pointwise_cm (decision table)
+PW_PRELUDE = [
+    "labels = np.asarray(labels)", "scores = np.asarray(scores)", "threshold = np.asarray(threshold)",
+    "score_class = BinaryLabel(score_class)", "equal_class = BinaryLabel(equal_class)",
+    "scores_shape = scores.shape", "labels = np.reshape(labels, -1)", "labels = labels[:, np.newaxis]",
+    "scores = np.reshape(scores, -1)", "scores = scores[:, np.newaxis]", "threshold_shape = threshold.shape",
+    "threshold = np.reshape(threshold, -1)", "threshold = threshold[np.newaxis, :]",
+    "pos = labels == pos_label", "neg = labels != pos_label",
+]
+PW_EPILOGUE = [
+    "cm = np.reshape(cm, (scores.size, *threshold_shape, 2, 2))",
+    "cm = np.reshape(cm, (*scores_shape, *threshold_shape, 2, 2))",
+    "return cm",
+]
+CMP = {ast.GtE: "ge_ext", ast.Gt: "gt_ext", ast.LtE: "le_ext", ast.Lt: "lt_ext"}
+
+
+def translate_pointwise(repo):
+    """The per-sample, per-threshold part of pointwise_cm: the comparison table and the four cells.
+    The flatten / broadcast / reshape bookkeeping around it is pinned textually (shape theorems: C10)."""
+    path = os.path.join(repo, "score_analysis", "scores.py")
+    tree = ast.parse(open(path).read())
+    fn = find_function(tree, "pointwise_cm")
+    body = strip_doc(fn.body)
+    src = [ast.unparse(s) for s in body]
+    if src[: len(PW_PRELUDE)] != PW_PRELUDE:
+        raise Reject("pointwise_cm prelude changed: " + "; ".join(src[: len(PW_PRELUDE)]))
+    if src[-len(PW_EPILOGUE):] != PW_EPILOGUE:
+        raise Reject("pointwise_cm epilogue changed: " + "; ".join(src[-len(PW_EPILOGUE):]))
+    mid = body[len(PW_PRELUDE): len(body) - len(PW_EPILOGUE)]
+    if len(mid) != 6 or not isinstance(mid[0], ast.If):
+        raise Reject("pointwise_cm middle part shape")
+
+    def cond(test):
+        # score_class == BinaryLabel.X and equal_class == BinaryLabel.Y
+        if not (isinstance(test, ast.BoolOp) and isinstance(test.op, ast.And) and len(test.values) == 2):
+            raise Reject("branch condition " + ast.unparse(test))
+        out = []
+        for v, name in zip(test.values, ("score_class", "equal_class")):
+            if ast.unparse(v) not in (f"{name} == BinaryLabel.pos", f"{name} == BinaryLabel.neg"):
+                raise Reject("branch condition " + ast.unparse(v))
+            out.append("Pos" if ast.unparse(v).endswith("pos") else "Neg")
+        return tuple(out)
+
+    def pair(stmts):
+        if len(stmts) != 2:
+            raise Reject("branch body")
+        res = {}
+        for st, name in zip(stmts, ("top", "ton")):
+            if not (isinstance(st, ast.Assign) and ast.unparse(st.targets[0]) == name and isinstance(st.value, ast.Compare)
+                    and ast.unparse(st.value.left) == "scores" and ast.unparse(st.value.comparators[0]) == "threshold"):
+                raise Reject("branch assignment " + ast.unparse(st))
+            res[name] = CMP[type(st.value.ops[0])]
+        return res["top"], res["ton"]
+
+    table = {}
+    node = mid[0]
+    while True:
+        table[cond(node.test)] = pair(node.body)
+        if len(node.orelse) == 1 and isinstance(node.orelse[0], ast.If):
+            node = node.orelse[0]
+        else:
+            rest = [k for k in (("Pos", "Pos"), ("Pos", "Neg"), ("Neg", "Pos"), ("Neg", "Neg")) if k not in table]
+            if len(rest) != 1:
+                raise Reject("decision table does not cover exactly the four configurations")
+            table[rest[0]] = pair(node.orelse)
+            break
+    if ast.unparse(mid[1]) != "cm = np.empty((scores.size, threshold.size, 2, 2), dtype=bool)":
+        raise Reject("cm allocation: " + ast.unparse(mid[1]))
+    cells = {}
+    for st in mid[2:]:
+        t = ast.unparse(st.targets[0])
+        v = ast.unparse(st.value)
+        if not (t.startswith("cm[..., ") and v in ("pos & top", "pos & ton", "neg & top", "neg & ton")):
+            raise Reject("cell assignment " + ast.unparse(st))
+        cells[t[len("cm[..., "):-1]] = v
+    if set(cells) != {"0, 0", "0, 1", "1, 0", "1, 1"}:
+        raise Reject("cells assigned: " + str(sorted(cells)))
+    tr = {"pos & top": "(is_pos && top_)", "pos & ton": "(is_pos && ton_)", "neg & top": "(negb is_pos && top_)", "neg & ton": "(negb is_pos && ton_)"}
+    rows = "\n".join(f"    | {a}, {b} => ({table[(a, b)][0]} x t, {table[(a, b)][1]} x t)" for a, b in
+                     (("Pos", "Pos"), ("Pos", "Neg"), ("Neg", "Pos"), ("Neg", "Neg")))
+    return (HEADER.format(src="pointwise_cm") +
+            "Definition gen_pointwise_cm1 (sc ec : label) (is_pos : bool) (x : Q) (t : ext) : cmz :=\n"
+            f"  let '(top_, ton_) :=\n    match sc, ec with\n{rows}\n    end in\n"
+            f"  mkCmz (b2z {tr[cells['0, 0']]}) (b2z {tr[cells['0, 1']]}) (b2z {tr[cells['1, 0']]}) (b2z {tr[cells['1, 1']]}).\n")
